@@ -86,6 +86,19 @@ func (ev *constEnv) eval(f *Fn, e ast.Expr, depth int) (constant.Value, bool) {
 			if lok && rok && l.Kind() == r.Kind() && l.Kind() != constant.Unknown {
 				return constant.MakeBool(constant.Compare(l, x.Op, r)), true
 			}
+		case token.ADD, token.SUB, token.MUL, token.AND, token.OR, token.XOR, token.AND_NOT:
+			// integer arithmetic and bit sets (a predicate written as `set & (1 << kind) != 0`)
+			r, rok := ev.eval(f, x.Y, depth)
+			if lok && rok && l.Kind() == constant.Int && r.Kind() == constant.Int {
+				return constant.BinaryOp(l, x.Op, r), true
+			}
+		case token.SHL, token.SHR:
+			r, rok := ev.eval(f, x.Y, depth)
+			if lok && rok && l.Kind() == constant.Int && r.Kind() == constant.Int {
+				if n, exact := constant.Uint64Val(r); exact && n < 64 {
+					return constant.Shift(l, x.Op, uint(n)), true
+				}
+			}
 		}
 	case *ast.CallExpr:
 		if depth > 4 {
